@@ -100,6 +100,10 @@ DefChecksW(G, o, L1, L2) ==
   <<"internal_closeness(c)", Vec(o, "internal_closeness(c)", n1, LAMBDA a : InternalCloseness(GW, L1, a))>>,
   <<"local_efficiency(c)", Vec(o, "local_efficiency(c)", n1, LAMBDA a : LocalEfficiency(GW, L1, L2, a))>>,
   <<"cross_outdegree(c)", Vec(o, "cross_outdegree(c)", n1, LAMBDA a : S * WStrength(G, L1, L2, a))>>,
+  <<"cross_link_attribute(c)", HasM(o, "cross_link_attribute(c)") =>
+        o.m["cross_link_attribute(c)"] = [a \in 1..n1 |-> [b \in 1..Len(L2) |-> S * RootMat(G.A, G.dir)[L1[a]][L2[b]]]]>>,
+  <<"internal_link_attribute(c)", HasM(o, "internal_link_attribute(c)") =>
+        o.m["internal_link_attribute(c)"] = [a \in 1..n1 |-> [b \in 1..n1 |-> S * RootMat(G.A, G.dir)[L1[a]][L1[b]]]]>>,
   <<"cross_indegree(c)", Vec(o, "cross_indegree(c)", n1, LAMBDA a : S * WInStrength(G, L1, L2, a))>>,
   <<"cross_degree(c)", Vec(o, "cross_degree(c)", n1, LAMBDA a :
         S * (IF G.dir = 1 THEN WStrength(G, L1, L2, a) + WInStrength(G, L1, L2, a) ELSE WStrength(G, L1, L2, a)))>>,
